@@ -122,12 +122,13 @@ func c07MakeUniverse(name string, dupParents bool, small bool) *c07Universe {
 	}
 	if small {
 		u.itemLabels = []map[string]string{nil, {"a": "1"}}
-		u.parLists = [][]string{nil, {"p1"}, {"p2", "p1"}}
+		// both orders of the two parents, whose label variants conflict on b (which selectors test)
+		u.parLists = [][]string{nil, {"p1"}, {"p1", "p2"}, {"p2", "p1"}}
 		if dupParents {
-			u.parLists = append(u.parLists, []string{"p1", "p1"}, []string{"p1", "p2", "p1"})
+			u.parLists = append(u.parLists, []string{"p1", "p1"})
 		}
-		u.parLabels = []map[string]string{{"b": "1"}, {"a": "2"}}
-		u.selSrc = []string{`all()`, `a == "1"`, `has(b)`, `!has(b)`, `a == "1" || b == "1"`, `a != "1"`}
+		u.parLabels = []map[string]string{{"b": "1"}, {"a": "2", "b": "2"}}
+		u.selSrc = []string{`all()`, `a == "1"`, `has(b)`, `!has(b)`, `a == "1" || b == "2"`, `b == "1"`}
 	}
 	u.init()
 	return u
@@ -207,6 +208,20 @@ func c07PanicLine(val string) string {
 		line = line[:100]
 	}
 	return line
+}
+
+// c07Prefixes returns populated start environments for the full universe (event indexes refer to
+// c07MakeUniverse("full", ...): parent label variants 0={b:1} 1={a:1,b:2} 2={}; selectors c07SelSrc).
+func c07Prefixes() [][]c07Ev {
+	return [][]c07Ev{
+		// parents conflict on b; selectors that test the value of b
+		{{Op: "UP", ID: "p1", L: 0}, {Op: "UP", ID: "p2", L: 1}, {Op: "US", ID: "s1", V: 10}, {Op: "US", ID: "s2", V: 8}},
+		// same parents, items already present with both parents in either order; selectors on a and !has(b)
+		{{Op: "UP", ID: "p1", L: 0}, {Op: "UP", ID: "p2", L: 1}, {Op: "UL", ID: "i1", L: 0, P: 3}, {Op: "UL", ID: "i2", L: 1, P: 4},
+			{Op: "US", ID: "s1", V: 5}, {Op: "US", ID: "s2", V: 11}},
+		// items first (parents unknown yet), selectors has(b) and a != "1"
+		{{Op: "UL", ID: "i1", L: 1, P: 1}, {Op: "UL", ID: "i2", L: 2, P: 4}, {Op: "US", ID: "s1", V: 3}, {Op: "US", ID: "s2", V: 2}},
+	}
 }
 
 func c07HasDup(l []string) bool {
@@ -385,11 +400,17 @@ func c07Key(s *c07State) string {
 	return b.String()
 }
 
-func c07Spec(u *c07Universe, depth int, tree bool, workers int) *hbfs.Spec[*c07State, c07Ev] {
+func c07Spec(u *c07Universe, depth int, tree bool, workers int, tag string, prefix []c07Ev) *hbfs.Spec[*c07State, c07Ev] {
 	evs := u.events()
 	sp := &hbfs.Spec[*c07State, c07Ev]{
-		Name:     fmt.Sprintf("inherit-%s-%s-d%d", u.name, map[bool]string{true: "tree", false: "graph"}[tree], depth),
-		New:      func() *c07State { return c07New(u) },
+		Name: fmt.Sprintf("inherit-%s%s-%s-d%d", u.name, tag, map[bool]string{true: "tree", false: "graph"}[tree], depth),
+		New: func() *c07State {
+			s := c07New(u)
+			for _, e := range prefix {
+				c07Apply(s, e)
+			}
+			return s
+		},
 		Apply:    c07Apply,
 		Enabled:  func(s *c07State, d int) []c07Ev { return evs },
 		Check:    c07Check,
@@ -419,6 +440,9 @@ func c07Spec(u *c07Universe, depth int, tree bool, workers int) *hbfs.Spec[*c07S
 		PanicKey: func(val string, hist []c07Ev) string {
 			// H04 shape: the item touched by the last event had a parent list naming one parent twice.
 			env := c07NewEnv()
+			for _, e := range prefix {
+				env.apply(e)
+			}
 			for _, e := range hist[:len(hist)-1] {
 				env.apply(e)
 			}
@@ -472,7 +496,13 @@ func TestVerif_C07(t *testing.T) {
 			} else if strings.Contains(d.Spec, "-small-") {
 				u = small
 			}
-			sp := c07Spec(u, 99, false, 1)
+			var prefix []c07Ev
+			for i, p := range c07Prefixes() {
+				if strings.Contains(d.Spec, fmt.Sprintf("-pre%d-", i)) {
+					prefix = p
+				}
+			}
+			sp := c07Spec(u, 99, false, 1, "", prefix)
 			fails, err := hbfs.Replay(sp, d.History)
 			if err != nil {
 				c.ToolError(err.Error())
@@ -492,14 +522,20 @@ func TestVerif_C07(t *testing.T) {
 			c07Ev{Op: "UP", ID: "p1", L: 0}.String(), c07Ev{Op: "US", ID: "s1", V: 3}.String(), c07Ev{Op: "UL", ID: "i1", L: 1, P: 3}.String(), c07Ev{Op: "DP", ID: "p1"}.String()},
 			"meaning": "p1 gets {b:1}; s1=has(b); i1 gets {a:1} with parents [p1,p2] (match starts through inheritance); p1 labels deleted (match must stop)"})
 		// graph mode: full universe (with the duplicate-parent lists)
-		hbfs.Explore(c, c07Spec(full, c.Pick(3, 5), false, workers))
+		hbfs.Explore(c, c07Spec(full, c.Pick(3, 5), false, workers, "", nil))
+		// populated start states: parents already carry (conflicting) labels and selectors are
+		// installed, so that item arrivals, re-sends, re-orderings and parent changes against a populated
+		// index are reached at small depth
+		for i, pre := range c07Prefixes() {
+			hbfs.Explore(c, c07Spec(full, c.Pick(3, 4), false, workers, fmt.Sprintf("-pre%d", i), pre))
+		}
 		// small universe: deeper graph search, to fixpoint when the budget allows
-		st := hbfs.Explore(c, c07Spec(small, c.Pick(5, 30), false, workers))
+		st := hbfs.Explore(c, c07Spec(small, c.Pick(5, 30), false, workers, "", nil))
 		c.Extra("small_universe_fixpoint_reached", st.Complete && st.Depth < c.Pick(5, 30))
 		// tree mode (every history, no merging): universe WITHOUT duplicate parent lists, so that no
 		// panic class can mask anything, and the small one with them
-		hbfs.Explore(c, c07Spec(nodup, c.Pick(2, 3), true, workers))
-		hbfs.Explore(c, c07Spec(small, c.Pick(3, 4), true, workers))
+		hbfs.Explore(c, c07Spec(nodup, c.Pick(2, 3), true, workers, "", nil))
+		hbfs.Explore(c, c07Spec(small, c.Pick(3, 4), true, workers, "", nil))
 		c07Prune(c, workers)
 	})
 }
